@@ -54,6 +54,7 @@ pub fn exec_snap_n<N: Analysis<Main> + Default + 'static>(ops: Vec<Op>, seed: u6
     let r = in_fresh_thread(move || {
         intern_names();
         fresh_noise(&enc_ops(&ops));
+        crate::suites::eg::warm_up(&enc_ops(&ops));
         let mut rng = Rng::new(seed);
         let mut eg: EGraph<Main, N> = EGraph::default();
         let mut tracked: Vec<AppliedId> = Vec::new();
